@@ -115,11 +115,22 @@ template <class Ch> inline std::string show_char(Ch c)
     return std::string(1, static_cast<char>(v));
   return vrt::fmt("\\u{%X}", v);
 }
+// runs of 14 or more equal characters are written <char>{count} (the texts of the stated bound are at most 12 long)
 template <class Ch> inline std::string show_text(std::basic_string<Ch> const &t)
 {
   std::string r = "\"";
-  for (Ch c : t)
-    r += show_char(c);
+  for (std::size_t i = 0; i < t.size();)
+  {
+    std::size_t e = i;
+    while (e < t.size() && t[e] == t[i])
+      ++e;
+    if (e - i >= 14)
+      r += show_char(t[i]) + "{" + std::to_string(e - i) + "}";
+    else
+      for (std::size_t k = i; k < e; ++k)
+        r += show_char(t[k]);
+    i = e;
+  }
   return r + "\"";
 }
 template <class Ch> inline std::string show_opt(fcppt::optional::object<Ch> const &o)
@@ -220,4 +231,12 @@ void register_straight();
 void register_fault();
 void register_errtext();
 void register_bytes();
+void register_long();
+
+// values around which the decimal rendering and the counter arithmetic change size
+inline std::vector<std::uint64_t> const &lattice()
+{
+  static std::vector<std::uint64_t> const v{1, 2, 9, 10, 11, 19, 20, 99, 100, 101, 109, 110, 111, 999, 1000, 1001, 1099, 1100, 9999, 10000, 65535, 65536};
+  return v;
+}
 }
